@@ -118,7 +118,12 @@ class LineFileBase(SeqProp):
         f = None
         iters = []
         out = []
-        unwrap = (lambda r: r.s) if is_rec else (lambda r: r)
+        def unwrap_rec(r):
+            text = r.s
+            r.s = "changed by the caller after it was read"  # the caller's copy: the file is not affected
+            return text
+
+        unwrap = unwrap_rec if is_rec else (lambda r: r)
         wrap = (lambda s: id_record()(s)) if is_rec else (lambda s: s)
         try:
             for op in case.ops:
@@ -191,7 +196,16 @@ class LineFileBase(SeqProp):
                     elif k == "dirty":
                         out.append(f"ret {1 if f.dirty else 0}")
                     elif k == "lines":
-                        out.append("list " + strs(unwrap(x) for x in f))
+                        view = [unwrap(x) for x in f]
+                        out.append("list " + strs(view))
+                        if len(content) < 3000 and len(view) <= 40:
+                            # the inherited Sequence interface (index with bounds, count, in, reversed) beside the list
+                            from .. import mixins
+                            ref = [wrap(x) for x in view]
+                            probes = ref[:2] + ref[-1:] + [wrap("n1"), wrap("no such line")]
+                            mix = mixins.sequence_battery(f, ref, probes)
+                            if mix is not None:
+                                out[-1] = "mixin-mismatch " + mix + " ;; " + out[-1]
                     elif k == "save":
                         le = dec_str(w[1])
                         dst = self.path("saved.txt")
@@ -234,6 +248,9 @@ class LineFileBase(SeqProp):
 
     # ---- oracle: a Python list of strings -----------------------------------------------------------------------------
     def oracle(self, case, impl_out):
+        for i, line in enumerate(impl_out):
+            if line.startswith("mixin-mismatch "):
+                return f"op {i} `{case.ops[i]}`: inherited Sequence interface: {line[15:].split(' ;; ')[0][:600]}"
         m = case.meta
         content = dec_str(m["content"])
         plain = "Record" not in m["variant"]
